@@ -392,7 +392,66 @@ def rule_single_pass_(ctx: Ctx, rep: Report) -> None:
     rule_single_pass(ctx, rep, "C13.single_pass", ('btclib.mnemonic', 'btclib.bip85'), 2)
 
 
+def rule_interpolate_off_the_points(ctx: Ctx, rep: Report) -> None:
+    """C13.interpolate_off_the_points: SLIP39 makes the first T-2 shares random and
+    *interpolates* the others through them, the digest and the secret. Lagrange
+    interpolation at the x of one of its own points divides by zero (here: a
+    table lookup that answers garbage), so `_split_secret` takes the first T-2
+    shares from the points themselves and calls `_interpolate(points, i)` only
+    for i from T-2 on: the range it runs over starts at the very expression the
+    slice of random shares ends at."""
+    rule = "C13.interpolate_off_the_points"
+    fi = ctx.func("btclib.mnemonic.slip39._split_secret")
+    comps = [c for c in own_nodes(fi.node) if isinstance(c, ast.comprehension) and isinstance(c.iter, ast.Call) and call_name(c.iter) == "range"
+             and any(isinstance(x, ast.Call) and call_name(x) == "_interpolate" for x in ast.walk(parent(c)))]
+    slices = [x for x in own_nodes(fi.node) if isinstance(x, ast.Subscript) and isinstance(x.slice, ast.Slice) and x.slice.lower is None and x.slice.upper is not None and isinstance(x.value, ast.Name)]
+    if len(comps) != 1:
+        rep.unknown(rule, "_split_secret", fi.where(), f"{len(comps)} interpolating comprehensions")
+        return
+    rg = comps[0].iter
+    ok = len(rg.args) == 2 and any(str(norm(x.slice.upper)) == str(norm(rg.args[0])) for x in slices)
+    rep.ob(rule, "_split_secret:range", ok, fi.where(rg), f"interpolated for i in `{norm(rg)}`, the random shares being `{norm(slices[0]) if slices else None}`" if ok else
+           f"`_interpolate` is evaluated for i in `{norm(rg)}`, which is not the complement of the random shares: at the x of one of its own points the interpolation is garbage, and every set holding such a share fails its digest")
+    rep.floor(rule, 1)
+
+
+def rule_electrum_reads_with_its_own_normaliser(ctx: Ctx, rep: Report) -> None:
+    """C13.electrum_reads_with_its_own_normaliser: electrum's normalisation lowers
+    the sentence (and drops combining marks, and the blanks between CJK
+    characters); BIP39's `normalize_mnemonic` does none of that. Every place in
+    electrum.py that looks the words of a sentence up in a word list reads the
+    sentence through electrum's own normaliser (`_decodable` / `_normalize`),
+    so that what `version_from_mnemonic` accepts, `entropy_from_mnemonic` reads:
+    an upper-case seed is one or the other, not accepted by one and "unknown
+    word" to the other."""
+    rule = "C13.electrum_reads_with_its_own_normaliser"
+    n = 0
+    for q, fi in sorted(ctx.prog.functions.items()):
+        if not q.startswith("btclib.mnemonic.electrum."):
+            continue
+        for c in own_nodes(fi.node):
+            if isinstance(c, ast.Call) and call_name(c) == "indexes_from_mnemonic" and c.args:
+                n += 1
+                a = c.args[0]
+                srcs = {call_name(x) for x in ast.walk(a) if isinstance(x, ast.Call)}
+                if isinstance(a, ast.Name):
+                    for d in own_nodes(fi.node):
+                        if isinstance(d, ast.Assign) and any(isinstance(t, ast.Name) and t.id == a.id for t in d.targets):
+                            srcs |= {call_name(x) for x in ast.walk(d.value) if isinstance(x, ast.Call)}
+                # the sentence may arrive normalised already (a private helper of a reader that did it); what is
+                # decided here is that it never goes through the *other* normaliser on its way to the lookup
+                ok = "normalize_mnemonic" not in srcs
+                rep.ob(rule, f"{fi.name}:lookup", ok, fi.where(c), "looked up through electrum's normaliser" if ok else
+                       f"`{norm(c)[:70]}` looks the words up after {sorted(srcs)}: BIP39's normaliser, not electrum's, so case (and CJK spacing) is read differently than where the seed's version is checked")
+    stray = [c for q, fi in sorted(ctx.prog.functions.items()) if q.startswith("btclib.mnemonic.electrum.") for c in own_nodes(fi.node) if isinstance(c, ast.Call) and call_name(c) == "normalize_mnemonic"]
+    rep.ob(rule, "electrum:no_bip39_normaliser", not stray, f"btclib/mnemonic/electrum.py:{stray[0].lineno if stray else 1}", "electrum.py never calls BIP39's normalize_mnemonic" if not stray else "electrum.py normalises a sentence with BIP39's normalize_mnemonic")
+    rep.floor(rule, 2)
+
+
 RULES = [
+    ("C13.interpolate_off_the_points", rule_interpolate_off_the_points),
+    ("C13.electrum_reads_with_its_own_normaliser", rule_electrum_reads_with_its_own_normaliser),
+
     ("C13.single_pass", rule_single_pass_),
 
     ("C13.word_indexes_in_range", rule_word_indexes_in_range),
